@@ -601,7 +601,10 @@ class Hooks(BaseHooks):
         return out
 
     def stats(self, ex):
-        return dict(self.cnt)
+        out = dict(self.cnt)
+        out["sweep_sub"] = sum(r.get("n_sub", 0) for r in ex.recs if r["k"] == "sweep")
+        out["sweep_fired"] = sum(r.get("n_fired", 0) for r in ex.recs if r["k"] == "sweep")
+        return out
 
 
 def _inplace():
